@@ -333,6 +333,9 @@ func runProtocol(kc *kernelCtx, blocks []*Block, only string, want map[string]bo
 			pc.opProps[qualName(b)] = b.props()
 		}
 	}
+	if on("C19") {
+		pc.pnInstrumentedPipes(only)
+	}
 	pc.d1Delegates(only) // tagged with C04 and the properties of the canonical operator's contract; filtered by the caller
 
 	if on("C01") || on("C02") {
